@@ -239,4 +239,136 @@ theorem entryLine_inj (v : Variant) (e e' : Entry)
     (h : entryLine v e = entryLine v e') : normEntry v e = normEntry v e' :=
   normEntry_of_fields he he' hw hw' h
 
+
+/-! ### the normalisations are collisions of the real format (findings) -/
+
+/-- any two messages with the same `splitlines` give the same testament -/
+theorem message_line_boundaries_collision (v : Variant) (r : Rev) (m' : Str)
+    (h : splitlines r.message = splitlines m') : text v r = text v { r with message := m' } := by
+  unfold text check render timestampOf timezoneOf
+  simp only [h]
+
+theorem message_trailing_newline_witness (v : Variant) (r : Rev) (h : r.message = "a".toList) :
+    r.message ≠ "a\n".toList ∧ text v r = text v { r with message := "a\n".toList } :=
+  ⟨by rw [h]; decide, message_line_boundaries_collision v r _ (by rw [h]; decide)⟩
+
+/-- `\n` vs U+2028 LINE SEPARATOR (stored faithfully by 2a and pack-0.92) -/
+theorem message_separator_witness (v : Variant) (r : Rev) (h : r.message = "a\nb".toList) :
+    r.message ≠ ['a', Char.ofNat 0x2028, 'b'] ∧
+    text v r = text v { r with message := ['a', Char.ofNat 0x2028, 'b'] } :=
+  ⟨by rw [h]; decide, message_line_boundaries_collision v r _ (by rw [h]; decide)⟩
+
+/-- timestamps that differ by less than a second are not distinguished -/
+theorem timestamp_subsecond_witness (v : Variant) (r : Rev) (h : r.timestampMs = 1200) :
+    r.timestampMs ≠ 1700 ∧ text v r = text v { r with timestampMs := 1700 } := by
+  refine ⟨by rw [h]; decide, ?_⟩
+  unfold text check render timestampOf timezoneOf
+  simp only [h]
+  rfl
+
+/-- the order of the parents (which one is the left-hand parent) is not attested -/
+theorem parents_order_witness (v : Variant) (r : Rev) (a b : Str) (hab : a ≠ b)
+    (h : r.parents = [a, b]) :
+    r.parents ≠ [b, a] ∧ text v r = text v { r with parents := [b, a] } := by
+  refine ⟨by rw [h]; simp [hab], ?_⟩
+  unfold text check render timestampOf timezoneOf
+  have : sortStrs r.parents = sortStrs [b, a] := sortStrs_perm (by rw [h]; exact List.Perm.swap b a [])
+  simp only [this]
+
+/-- the base class `Testament` does not attest the executable bit -/
+theorem v1_exec_witness (r : Rev) (e : Entry) (h : r.entries = [e]) :
+    text .v1 r = text .v1 { r with entries := [{ e with executable := !e.executable }] } := by
+  unfold text check render timestampOf timezoneOf
+  simp only [h, sortEntries, List.mergeSort_singleton, List.findSome?_cons, List.map_cons]
+  rfl
+
+def wDir : Entry :=
+  { path := "d".toList, kind := .directory, fileId := "d-id".toList, sha1 := [], target := [],
+    revision := "r0".toList, executable := false }
+
+def wFile (path : Str) : Entry :=
+  { path := path, kind := .file, fileId := "f-id".toList,
+    sha1 := "da39a3ee5e6b4b0d3255bfef95601890afd80709".toList, target := [],
+    revision := "r1".toList, executable := false }
+
+/-- a file `f` inside directory `d` and a file literally named `d\f` next to
+`d` give the same testament in every class -/
+theorem path_backslash_witness (v : Variant) (r : Rev) (h : r.entries = [wDir, wFile "d/f".toList]) :
+    text v r = text v { r with entries := [wDir, wFile "d\\f".toList] } := by
+  have s1 : sortEntries [wDir, wFile "d/f".toList] = [wDir, wFile "d/f".toList] :=
+    List.mergeSort_of_pairwise (by decide)
+  have s2 : sortEntries [wDir, wFile "d\\f".toList] = [wDir, wFile "d\\f".toList] :=
+    List.mergeSort_of_pairwise (by decide)
+  have l : entryLine v (wFile "d/f".toList) = entryLine v (wFile "d\\f".toList) := by
+    cases v <;> decide
+  unfold text check render timestampOf timezoneOf
+  simp only [h, s1, s2, List.map_cons, l, List.findSome?_cons]
+  rfl
+
+
+/-- `a\b` and `a/b` as symlink targets are not distinguished -/
+theorem symlink_target_backslash_witness (v : Variant) (r : Rev) (e : Entry)
+    (hk : e.kind = .symlink) (ht : e.target = "a\\b".toList) (h : r.entries = [e]) :
+    e.target ≠ "a/b".toList ∧
+    text v r = text v { r with entries := [{ e with target := "a/b".toList }] } := by
+  refine ⟨by rw [ht]; decide, ?_⟩
+  have l : entryLine v e = entryLine v { e with target := "a/b".toList } := by
+    unfold entryLine contentPart strictPart
+    simp only [hk, ht]
+    cases v <;> rfl
+  have c : entryErr e = entryErr { e with target := "a/b".toList } := by
+    unfold entryErr
+    simp only [hk, ht]
+    rfl
+  unfold text check render timestampOf timezoneOf
+  simp only [h, sortEntries, List.mergeSort_singleton, List.findSome?_cons, List.map_cons, l, c]
+
+/-- revision property values are attested only up to `splitlines` -/
+theorem revprop_line_boundaries_witness (v : Variant) (r : Rev) (n val val' : Str)
+    (hs : splitlines val = splitlines val') (h : r.props = [(n, val)]) :
+    text v r = text v { r with props := [(n, val')] } := by
+  unfold text check render timestampOf timezoneOf revpropsLines
+  simp only [h, sortProps, List.mergeSort_singleton, List.findSome?_cons, propLines, hs]
+  rfl
+
+/-! ### non-vacuity -/
+
+/-- a small non-trivial record: two parents, a directory, an executable file
+inside it, a symlink with a space in its target, one property -/
+def rec0 : Rev :=
+  { revisionId := "r1".toList, committer := "C <c@x>".toList, timestampMs := 2000, timezone := some 3600,
+    parents := ["a".toList, "b".toList], message := "a\nb".toList,
+    entries := [
+      { path := "d".toList, kind := .directory, fileId := "d-id".toList, sha1 := [], target := [],
+        revision := "r0".toList, executable := false },
+      { path := "d/f".toList, kind := .file, fileId := "f-id".toList,
+        sha1 := "da39a3ee5e6b4b0d3255bfef95601890afd80709".toList, target := [],
+        revision := "r1".toList, executable := true },
+      { path := "l".toList, kind := .symlink, fileId := "l-id".toList, sha1 := [],
+        target := "d/f x".toList, revision := "r1".toList, executable := false } ],
+    props := [("k".toList, "v".toList)] }
+
+theorem rec0_sorted : sortStrs rec0.parents = rec0.parents ∧ sortEntries rec0.entries = rec0.entries ∧
+    sortProps rec0.props = rec0.props :=
+  ⟨List.mergeSort_of_pairwise (by decide), List.mergeSort_of_pairwise (by decide),
+   List.mergeSort_of_pairwise (by decide)⟩
+
+/-- the hypotheses of the theorems above are satisfiable by a non-trivial record -/
+theorem rec0_ok : check rec0 = none ∧ (∀ v, RevWF v rec0 = true) ∧ Canon rec0 = true ∧
+    (rec0.entries.map Entry.path).Nodup ∧ (rec0.props.map Prod.fst).Nodup := by
+  obtain ⟨s1, s2, s3⟩ := rec0_sorted
+  refine ⟨?_, fun v => by cases v <;> decide, ?_, by decide, by decide⟩
+  · unfold check; rw [s1, s2, s3]; decide
+  · unfold Canon; rw [s1]; decide
+
+example : ∀ v, ∃ t, text v rec0 = .ok t := fun v => ⟨_, by unfold text; rw [rec0_ok.1]⟩
+
+/-- and the result is not insensitive for a trivial reason: changing the committer
+of `rec0` is a change of `attested` -/
+example : ∀ v, attested v rec0 ≠ attested v { rec0 with committer := "D".toList } := by
+  intro v h
+  have := congrArg Attested.committer h
+  simp only [attested] at this
+  exact absurd this (by decide)
+
 end BreezyVerif.C41
